@@ -312,7 +312,7 @@ wrapped["sched"] = r'''
     }
 '''
 
-HELPER = '\n    #[allow(unused_imports)]\n    use iceoryx2_pal_concurrency_sync::sim::remote;\n    #[allow(dead_code)]\n    fn cs_(p: *const c_char) -> alloc::string::String {\n        if p.is_null() { return alloc::string::String::new(); }\n        unsafe { core::ffi::CStr::from_ptr(p) }.to_string_lossy().into_owned()\n    }\n    #[allow(dead_code)]\n    fn set_errno_(e: i32) { unsafe { *libc::__errno_location() = e; } }\n    /// remote mode: report the call, let the controller decide (go / fail / kill)\n    macro_rules! ry_ {\n        ($kind:expr, $arg:expr, $detail:expr, $failret:expr) => {\n            if iceoryx2_pal_concurrency_sync::sim::pathlog::is_on() {\n                iceoryx2_pal_concurrency_sync::sim::pathlog::push($kind, $detail);\n            }\n            if remote::active() {\n                if let remote::Answer::Fail(e) = remote::yield_point($kind, $arg as i64, $detail) {\n                    set_errno_(e);\n                    return $failret;\n                }\n            }\n        };\n    }\n'
+HELPER = '\n    #[allow(unused_imports)]\n    use iceoryx2_pal_concurrency_sync::sim::remote;\n    #[allow(dead_code)]\n    fn cs_(p: *const c_char) -> alloc::string::String {\n        if p.is_null() { return alloc::string::String::new(); }\n        unsafe { core::ffi::CStr::from_ptr(p) }.to_string_lossy().into_owned()\n    }\n    #[allow(dead_code)]\n    fn set_errno_(e: i32) { unsafe { *libc::__errno_location() = e; } }\n    /// remote mode: report the call, let the controller decide (go / fail / kill)\n    macro_rules! ry_ {\n        ($kind:expr, $arg:expr, $detail:expr, $failret:expr) => {\n            if iceoryx2_pal_concurrency_sync::sim::pathlog::is_on() {\n                iceoryx2_pal_concurrency_sync::sim::pathlog::push($kind, $detail);\n            }\n            if iceoryx2_pal_concurrency_sync::sim::faults::is_armed() {\n                if let Some(e) = iceoryx2_pal_concurrency_sync::sim::faults::should_fail($kind) {\n                    set_errno_(e);\n                    return $failret;\n                }\n            }\n            if remote::active() {\n                if let remote::Answer::Fail(e) = remote::yield_point($kind, $arg as i64, $detail) {\n                    set_errno_(e);\n                    return $failret;\n                }\n            }\n        };\n    }\n'
 out = ["// GENERATED by gen_os.py — custom POSIX platform for the simulator (DESIGN.md §3.2).",
        "pub mod posix {"]
 for m in mods:
